@@ -490,8 +490,16 @@ async fn read_length_and_string<IO: RW>(io: &mut IO) -> Result<String, Error> {
 }
 
 async fn read_null_terminated_string<IO: RW>(io: &mut IO) -> Result<String, Error> {
+    // the peer decides where the terminator is: do not buffer without bound while waiting for it
+    const MAX_LEN: u64 = 4096;
     let mut buf = Vec::new();
-    io.read_until(0, &mut buf).await.context("read domain")?;
+    io.take(MAX_LEN)
+        .read_until(0, &mut buf)
+        .await
+        .context("read domain")?;
+    if buf.len() as u64 >= MAX_LEN && buf.last() != Some(&0) {
+        bail!("null terminated string too long");
+    }
     // read_until also returns at end of stream: without the terminator the field is truncated
     if buf.pop() != Some(0) {
         bail!("unexpected end of stream in null terminated string");
